@@ -50,7 +50,7 @@ func loadWorld(repo string, patterns []string) (*World, error) {
 	}
 	w := &World{Pkgs: map[string]*packages.Package{}, SSAPkgs: map[string]*ssa.Package{}, RepoDir: repo,
 		Funcs: map[string]*ssa.Function{}, byName: map[string]*types.Package{}}
-	prog, _ := ssautil.AllPackages(initial, ssa.InstantiateGenerics)
+	prog, _ := ssautil.AllPackages(initial, ssa.InstantiateGenerics|ssa.GlobalDebug)
 	w.Prog = prog
 	w.Fset = prog.Fset
 	packages.Visit(initial, nil, func(p *packages.Package) {
